@@ -68,6 +68,7 @@ def check(ctx):
     r6_inplace_returns(ctx)
     ctx.rule("C03-R7", "join / stack / slice / atom_slice on model trajectories: each array of the result equals the numpy concatenation / indexing of the operands' arrays, element for element")
     r7_values(ctx)
+    r7_module_join(ctx)
     r7_traces(ctx)
     ctx.rule("C03-R5", "public analysis and save functions never store into their trajectory argument nor pass an alias of "
                        "its arrays to a parameter that a callee (Python, Cython or C via non-const pointer) writes")
@@ -488,7 +489,10 @@ def r7_values(ctx):
         top = top or Obj(tag=name + ".top")
         if not hasattr(top, "join"):
             top.join = lambda other, keep_resSeq=True, _t=top: Obj(tag=("join", _t, other, keep_resSeq), _numAtoms=(_t._numAtoms or 0) + (getattr(other, "_numAtoms", 0) or 0))
-            top.subset = lambda idx, _t=top: Obj(tag=("subset", _t, tuple(idx)), _numAtoms=len(tuple(idx)))
+            def _subset(idx, _t=top):
+                ids = tuple(int(x_.const_value()) if hasattr(x_, "const_value") and x_.const_value() is not None else x_ for x_ in (idx.data if isinstance(idx, Ten) else idx))
+                return Obj(tag=("subset", _t, ids), _numAtoms=len(ids))
+            top.subset = _subset
         if not hasattr(top, "_numAtoms"):
             top._numAtoms, top.n_atoms = atoms, atoms
         o = ctor(Ten.sym(name + ".x", (F, atoms, 3)), top, Ten.sym(name + ".t", (F,)), Ten.sym(name + ".len", (F, 3)), Ten.sym(name + ".ang", (F, 3)))
@@ -688,6 +692,51 @@ def r7_values(ctx):
             pr.append("the topology is not replaced by its subset")
         return pr
     run("Trajectory.atom_slice", "atom_slice([2, 0], inplace=True): self updated, cached traces dropped, returns self", b_aslice_in, s_aslice_in)
+
+
+def r7_module_join(ctx):
+    """md.join(trajs, check_topology, discard_overlapping_frames) evaluated with the pieces as recorders: whatever way it combines them (pairwise
+    reduction, one n-ary call), the pieces end up in the order given and every Trajectory.join it calls receives the caller's two options - each
+    under its own name."""
+    from ..tensym import TenSym, Obj, Raised
+    from ..pysym import Unsupported as PUnsupported
+    fn = ctx.py.func(TRAJ, "join")
+    for ct, do in ((True, False), (False, True), (True, True)):
+        desc = "md.join of three pieces, check_topology=%s, discard_overlapping_frames=%s: the pieces in order, both options passed on under their own names" % (ct, do)
+        calls = []
+
+        def piece(parts):
+            o = Obj(tag="traj%s" % (parts,), parts=list(parts), _lenient=True)
+
+            def join(other, check_topology=True, discard_overlapping_frames=False, _o=o):
+                others = other if isinstance(other, (list, tuple)) else [other]
+                calls.append((check_topology, discard_overlapping_frames))
+                return piece(_o.parts + [p_ for x_ in others for p_ in x_.parts])
+            o.join = join
+            return o
+
+        def reduce_(ev, call):
+            f_, seq = ev.ex(call.args[0]), list(ev.iterate(ev.ex(call.args[1])))
+            acc = seq[0] if len(call.args) < 3 else ev.ex(call.args[2])
+            for y in (seq[1:] if len(call.args) < 3 else seq):
+                if not (isinstance(f_, tuple) and f_ and f_[0] == "<lambda>"):
+                    raise PUnsupported("functools.reduce with something that is not a lambda")
+                acc = ev.apply_lambda(f_, [acc, y])
+            return acc
+        try:
+            ts = TenSym({}, models={"functools.reduce": reduce_, "reduce": reduce_})
+            got = ts.run_fn(fn, trajs=[piece([0]), piece([1]), piece([2])], check_topology=ct, discard_overlapping_frames=do)
+            why = []
+            if not (isinstance(got, Obj) and getattr(got, "parts", None) == [0, 1, 2]):
+                why.append("the result holds the pieces %s" % (getattr(got, "parts", got),))
+            bad = [c_ for c_ in calls if c_ != (ct, do)]
+            if bad or not calls:
+                why.append("Trajectory.join is called with (check_topology, discard_overlapping_frames) = %s" % (calls,))
+            ctx.decide(not why, "C03-R7", fn, TRAJ, "join", desc, "", "; ".join(why))
+        except Raised as e:
+            ctx.violated("C03-R7", fn, TRAJ, "join", desc, "raises %s" % (e.exc or e))
+        except PUnsupported as e:
+            ctx.undecided("C03-R7", fn, TRAJ, "join", desc, "not evaluable: %s" % e)
 
 
 def r7_traces(ctx):
